@@ -190,6 +190,8 @@ def main():
     all_cases = []
     for fam, n in FAMS.items():
         cs = family.generate(fam, n * mult, seed + 8, tier)
+        if fam == "argfind":
+            cs = cs + family.exhaustive("argfind-brackets")  # every bracket pattern of three axes incl. unit axes
         all_cases.extend(cs)
         items.extend((c, seed, timeout_ms) for c in cs)
     results = runner.pmap(work, items, chunksize=4)
